@@ -5,12 +5,12 @@ package main
 // the top of escape.go (C05, C07, C08).
 
 import (
-	"strconv"
 	"fmt"
 	"go/ast"
 	"go/token"
 	"go/types"
 	"sort"
+	"strconv"
 	"strings"
 )
 
@@ -119,6 +119,27 @@ func (p *Prog) fieldType(elem, path string) types.Type {
 }
 
 // elemName of a pointer-to-named-struct type
+// ifaceElemName names an interface type whose values are modelled as references with a dynamic
+// type (text/template/parse.Node): "iface:parse_Node".
+func ifaceElemName(t types.Type) (string, bool) {
+	n, ok := t.(*types.Named)
+	if !ok || n.Obj().Pkg() == nil || n.Obj().Pkg().Path() != "text/template/parse" {
+		return "", false
+	}
+	if it, ok := n.Underlying().(*types.Interface); !ok || it.NumMethods() == 0 {
+		return "", false
+	}
+	return "iface:parse_" + n.Obj().Name(), true
+}
+
+// refLikeElem: the element name of a pointer-to-struct or modelled interface type.
+func refLikeElem(t types.Type) (string, bool) {
+	if en, ok := elemName(t); ok {
+		return en, true
+	}
+	return ifaceElemName(t)
+}
+
 func elemName(t types.Type) (string, bool) {
 	p, ok := t.(*types.Pointer)
 	if !ok {
@@ -290,6 +311,14 @@ func (fx *FuncCtx) readField(st *State, ref Term, elem, path string, ft types.Ty
 		}
 		return VRef{v, en}
 	}
+	if en, ok := ifaceElemName(ft); ok {
+		arr := fx.hget(st, key, arrSort(sortInt))
+		v := nm(sortInt, "rf", sSel(arr, ref))
+		if !pure {
+			fx.assume(st.pc, sAnd(sLe("0", v), sLe(v, fx.refBound(st, arr))))
+		}
+		return VRef{v, en}
+	}
 	switch u := ft.Underlying().(type) {
 	case *types.Basic:
 		switch {
@@ -315,6 +344,15 @@ func (fx *FuncCtx) readField(st *State, ref Term, elem, path string, ft types.Ty
 				fx.assume(st.pc, sAnd(sLe("0", o), sLe("0", l), sLt(l, maxLen)))
 			}
 			return VStr{B: b, O: o, L: l}
+		}
+		if en, ok := refLikeElem(u.Elem()); ok {
+			// a slice of references: its element array and its length
+			arr := sSel(fx.hget(st, key+"#refs", arrSort(sortArr)), ref)
+			n := nm(sortInt, "rfn", sSel(fx.hget(st, key+"#n", arrSort(sortInt)), ref))
+			if !pure {
+				fx.assume(st.pc, sAnd(sLe("0", n), sLt(n, maxLen)))
+			}
+			return VRefs{Arr: arr, N: n, Elem: en}
 		}
 	case *types.Interface:
 		if isErrorLike(ft) {
@@ -865,9 +903,9 @@ func (p *Prog) heapKeySort(key string) string {
 		return ""
 	}
 	switch suffix {
-	case "#b":
+	case "#b", "#refs":
 		return arrSort(sortArr)
-	case "#o", "#l":
+	case "#o", "#l", "#n":
 		return arrSort(sortInt)
 	}
 	if b, ok := ft.Underlying().(*types.Basic); ok && b.Info()&types.IsBoolean != 0 {
@@ -1288,6 +1326,12 @@ func (p *Prog) buildHeapKeyIndex() {
 		}
 		if isStr {
 			ks = []string{base + "#b", base + "#o", base + "#l"}
+		} else if sl, ok := t.Underlying().(*types.Slice); ok {
+			if _, ok := refLikeElem(sl.Elem()); ok {
+				ks = []string{base + "#refs", base + "#n"}
+			} else {
+				ks = []string{base}
+			}
 		} else {
 			ks = []string{base}
 		}
